@@ -18,6 +18,7 @@
 EXTENDS Integers, Sequences, FiniteSets, TLC, Json
 
 CONSTANTS Mode,   \* "roles" | "pairs" | "shapes" | "multi" (multigraphs: parallel lines, MarshalMulti / UnmarshalMulti)
+                  \* | "ports" (both ends ported, every stored orientation / reversal rule / graph kind)
           Seed, Shard, NShards, Emit
 
 VARIABLE val
@@ -107,7 +108,60 @@ Multi(d) == {[dir |-> d, role |-> "multi",
                : ls \in UNION {[1 .. n -> LineKinds(d)] : n \in 1 .. 3},
                  t \in {u \in 0 .. 40 : Pick(1 + u) # Pick(2 + u)}}
 
-Space == IF Mode = "multi" THEN Multi(TRUE) \cup Multi(FALSE)
+(*************************** "ports" **************************************)
+(* The abstract content of an edge is its two ENDS, each a node with a port *)
+(* string and a compass point.  A directed edge is the ordered pair <<tail  *)
+(* end, head end>>; an undirected edge is the SET of its two ends, carried  *)
+(* here as the pair (a, b) with a.node < b.node.                             *)
+(*                                                                           *)
+(* What Marshal is handed is a REPRESENTATION of that content: an edge       *)
+(* object with From / To / FromPort / ToPort.  For an undirected edge both   *)
+(* orientations (From = a or From = b) represent the same abstract edge, and *)
+(* which of them the encoder sees when it asks the graph for Edge(n, t) with *)
+(* n the smaller ID depends on                                               *)
+(*   rev  what the edge's ReversedEdge / ReversedLine does: "swap" returns   *)
+(*        an edge with ends and ports exchanged, "self" returns the receiver *)
+(*        (documented: "otherwise the receiver should be returned            *)
+(*        unaltered"; graph/formats/rdf.Statement does this);                *)
+(*   gk   the graph: "lib" = simple / multi UndirectedGraph (they call       *)
+(*        Reversed* when the stored orientation is the other one), "stored"  *)
+(*        = a graph that returns the edge object as it was stored.           *)
+(* None of this may show in the document: Unmarshal(Marshal(rep)) must have  *)
+(* the abstract content Abs(rep), whatever the representation.               *)
+End(i, p, c) == [node |-> i, port |-> p, compass |-> c]
+AbsD(e) == [a |-> End(e.u, e.fp, e.fc), b |-> End(e.v, e.tp, e.tc)]
+AbsU(e) == IF e.u < e.v THEN AbsD(e) ELSE [a |-> End(e.v, e.tp, e.tc), b |-> End(e.u, e.fp, e.fc)]
+Abs(d, e) == IF d THEN AbsD(e) ELSE AbsU(e)
+\* the representation of abstract edge x whose From end is a ("ab") or b ("ba")
+Rep(x, o, attrs) == IF o = "ab" THEN EdgeR(x.a.node, x.b.node, attrs, x.a.port, x.a.compass, x.b.port, x.b.compass)
+                    ELSE EdgeR(x.b.node, x.a.node, attrs, x.b.port, x.b.compass, x.a.port, x.a.compass)
+
+CompassP == { <<>>, <<110>>, <<115,119>> }                  \* none, n, sw
+CompassTokens == { <<95>>, <<110>>, <<110,101>>, <<101>>, <<115,101>>, <<115>>, <<115,119>>, <<119>>, <<110,119>>, <<99>> }
+PT == CHOOSE u \in 0 .. 60 : Cardinality({Pick(1 + u), Pick(2 + u), Pick(3 + u), Pick(4 + u), Pick(5 + u), Pick(6 + u)}) = 6
+PortsP == { <<>>, Pick(3 + PT), Pick(4 + PT) }               \* none and two different hostile port strings
+\* abstract edges between nodes 1 and 2: every port / compass combination at the two ends
+AbsEdges(d) == {[a |-> End(p[1], fp, fc), b |-> End(p[2], tp, tc)] :
+                   p \in (IF d THEN {<<1, 2>>, <<2, 1>>} ELSE {<<1, 2>>}), fp \in PortsP, tp \in PortsP, fc \in CompassP, tc \in CompassP}
+\* a few abstract edges for a second, parallel line: different strings and different compass points at the two ends
+FewEdges(d) == {[a |-> End(p[1], q[1], q[2]), b |-> End(p[2], q[3], q[4])] :
+                   p \in (IF d THEN {<<1, 2>>, <<2, 1>>} ELSE {<<1, 2>>}),
+                   q \in { <<Pick(4 + PT), <<101>>, Pick(3 + PT), <<119>>>>, <<<<>>, <<>>, Pick(3 + PT), <<110>>>>,
+                           <<Pick(3 + PT), <<>>, <<>>, <<115>>>> }}
+Orients(d) == IF d THEN {"ab"} ELSE {"ab", "ba"}
+RepKinds(d) == IF d THEN {<<"swap", "lib">>} ELSE {"swap", "self"} \X {"lib", "stored"}
+PortNodes == <<NodeR(Pick(1 + PT), <<>>), NodeR(Pick(2 + PT), <<Attr(Lbl, Pick(5 + PT))>>)>>
+PortCase(d, m, rk, es) == [dir |-> d, role |-> IF m THEN "ports-multi" ELSE "ports", rev |-> rk[1], gk |-> rk[2],
+                           nodes |-> PortNodes, edges |-> es]
+PortsSpace(d) ==
+     {PortCase(d, m, rk, <<Rep(x, o, <<>>)>>) : m \in BOOLEAN, rk \in RepKinds(d), x \in AbsEdges(d), o \in Orients(d)}
+\cup {PortCase(d, TRUE, rk, <<Rep(x, o, <<Attr(Lbl, X)>>), Rep(y, o2, <<Attr(Lbl, Pick(6 + PT))>>)>>) :
+         rk \in RepKinds(d), x \in AbsEdges(d), o \in Orients(d), y \in FewEdges(d), o2 \in Orients(d)}
+InShard(c) == LET e == c.edges[1] IN ((Hash(e.fp) + 3 * Hash(e.tp) + 5 * Hash(e.fc) + 7 * Hash(e.tc) + Len(c.edges) + Seed) % NShards) = Shard
+Ports == {c \in PortsSpace(TRUE) \cup PortsSpace(FALSE) : InShard(c)}
+
+Space == IF Mode = "ports" THEN Ports
+         ELSE IF Mode = "multi" THEN Multi(TRUE) \cup Multi(FALSE)
          ELSE IF Mode = "roles" THEN Roles(TRUE) \cup Roles(FALSE)
          ELSE IF Mode = "pairs" THEN Pairs(TRUE) \cup Pairs(FALSE)
          ELSE Shapes(TRUE) \cup Shapes(FALSE)
@@ -118,6 +172,7 @@ Spec == Init /\ [][Next]_vars
 
 (***************************** theorems (R1) ********************************)
 Rng(f) == {f[i] : i \in DOMAIN f}
+IsMulti == val.role \in {"multi", "ports-multi"}
 \* what is handed to the encoder is a well-formed structure whose node names are pairwise distinct and exact,
 \* so that "the same structure comes back" is well defined
 WellFormed == /\ \A i, j \in DOMAIN val.nodes : val.nodes[i].id = val.nodes[j].id => i = j
@@ -125,8 +180,20 @@ WellFormed == /\ \A i, j \in DOMAIN val.nodes : val.nodes[i].id = val.nodes[j].i
               /\ \A e \in Rng(val.edges) : e.u \in DOMAIN val.nodes /\ e.v \in DOMAIN val.nodes /\ e.u # e.v
                                            /\ Exact(e.fp) /\ Exact(e.tp)
               /\ \A i, j \in DOMAIN val.edges :
-                    (i # j /\ Mode # "multi") => {val.edges[i].u, val.edges[i].v} # {val.edges[j].u, val.edges[j].v}
+                    (i # j /\ ~IsMulti) => {val.edges[i].u, val.edges[i].v} # {val.edges[j].u, val.edges[j].v}
                                \/ (val.dir /\ val.edges[i].u # val.edges[j].u)
+\* the abstraction does not depend on the representation: both stored orientations of an undirected edge have the
+\* same abstract content, and the content is what the representation was made from
+AbsRepInvariant == Mode = "ports" =>
+                     /\ \A d \in BOOLEAN : \A x \in AbsEdges(d) \cup FewEdges(d) : \A o \in Orients(d) : Abs(d, Rep(x, o, <<>>)) = x
+                     /\ \A x \in AbsEdges(FALSE) : AbsU(Rep(x, "ab", <<>>)) = AbsU(Rep(x, "ba", <<>>)) /\ x.a.node < x.b.node
+\* a port string is never a compass token (":n" alone is read as a compass point - a matter of the DOT grammar) and
+\* the two port strings and the two compass points used at the two ends are different
+PortsDistinct == \A e \in Rng(val.edges) : e.fp \notin CompassTokens /\ e.tp \notin CompassTokens
+PortsConst == Mode = "ports" => /\ Cardinality(PortsP) = 3 /\ PortsP \subseteq (PortPool \cup {<<>>})
+                                /\ CompassP \subseteq (CompassTokens \cup {<<>>})
+ASSUME AbsRepInvariant
+ASSUME PortsConst
 \* the classification is total, and the identity expectation preserves distinctness
 ClassTotal == \A s \in Pool : Class(s) \in {"plain", "html", "lexical"} /\ (Exact(s) => Expected(s) = s)
 
@@ -135,11 +202,16 @@ S(s) == [c |-> s, exact |-> Exact(s), cls |-> Class(s)]
 AttrsJ(as) == [i \in DOMAIN as |-> [k |-> S(as[i].k), v |-> S(as[i].v)]]
 EmitCase ==
   Emit => PrintT(ToJson([k |-> "dot", dir |-> val.dir, role |-> val.role,
+                         rev |-> IF "rev" \in DOMAIN val THEN val.rev ELSE "swap",
+                         gk |-> IF "gk" \in DOMAIN val THEN val.gk ELSE "lib",
                          nodes |-> [list |-> [i \in DOMAIN val.nodes |->
                                        [id |-> S(val.nodes[i].id), attrs |-> [list |-> AttrsJ(val.nodes[i].attrs)]]]],
                          edges |-> [list |-> [i \in DOMAIN val.edges |->
                                        [u |-> val.edges[i].u, v |-> val.edges[i].v,
                                         attrs |-> [list |-> AttrsJ(val.edges[i].attrs)],
                                         fp |-> S(val.edges[i].fp), fc |-> S(val.edges[i].fc),
-                                        tp |-> S(val.edges[i].tp), tc |-> S(val.edges[i].tc)]]]]))
+                                        tp |-> S(val.edges[i].tp), tc |-> S(val.edges[i].tc),
+                                        abs |-> LET x == Abs(val.dir, val.edges[i]) IN
+                                                [a |-> [node |-> x.a.node, port |-> S(x.a.port), compass |-> S(x.a.compass)],
+                                                 b |-> [node |-> x.b.node, port |-> S(x.b.port), compass |-> S(x.b.compass)]]]]]]))
 =============================================================================
